@@ -233,6 +233,23 @@ def body(c, ctx):
         out = ((G - cen[:, :, None]) * N).sum(0)
         if np.any(out <= 0) and not curved:
             ctx.fail('normals_outward', f'normal points into the cell it is taken from for {int((out <= 0).sum())} points', **sig)
+    # ---------------------------------------------------------------- normals delivered by the bases, both sides
+    inner_f = np.nonzero(m.f2t[1] != -1)[0]
+    if len(inner_f) and c['layout'] == 'shared':
+        from skfem import InteriorFacetBasis
+        W = np.ones(S0.shape[1]) / S0.shape[1]
+        ib0 = InteriorFacetBasis(m, m.elem(), side=0, quadrature=(S0, W))
+        ib1 = InteriorFacetBasis(m, m.elem(), side=1, quadrature=(S0, W))
+        n0, n1 = np.asarray(ib0.normals.value), np.asarray(ib1.normals.value)
+        if n0.shape != n1.shape or not np.allclose(n0, n1, rtol=0, atol=1e-9):
+            ctx.fail('basis_normals_sides', f'normals of the side-0 and side-1 bases differ by '
+                     f'{np.abs(n0 - n1).max() if n0.shape == n1.shape else "shape"} at the same physical points', **sig)
+        dGi = np.array([fd.d_dX(lambda Y: np.asarray(mapping.G(Y, find=ib1.find)), S0, a, h) for a in range(dim - 1)])
+        for a in range(dim - 1):
+            dots = (n1 * dGi[a]).sum(0) / hcell
+            if np.abs(dots).max() > 1e-8:
+                ctx.fail('basis_normals_orthogonal', f'side-1 basis normals are not orthogonal to the facet: {np.abs(dots).max():.2e}', **sig)
+                break
     # ---------------------------------------------------------------- facet measure and divergence identity
     if tmode == 'none' and c['layout'] == 'shared':
         from skfem import CellBasis, FacetBasis, Functional
